@@ -55,7 +55,7 @@ HARNESS_BIN = "c13"
 NCASES = {"quick": 12000, "thorough": 200000}
 CASE_TIMEOUT = {"quick": 30, "thorough": 120}
 
-LEVEL_TEXT = ("Machine-checked Coq theorems (99 pinned) at three levels. (1) Value level, every word size >= 2, every modulus >= 1, all "
+LEVEL_TEXT = ("Machine-checked Coq theorems (100 pinned) at three levels. (1) Value level, every word size >= 2, every modulus >= 1, all "
               "integers: construction of the ring, reduce for every size class and sign, + - * neg dbl sqr ==, the two exponentiation "
               "algorithms (binary method word by word; sliding window with a table of odd powers - proved generically for any carrier, "
               "every window length; exponent 0 and modulus 1 included), inverse, division, ring identity and the num_modular::Reducer "
@@ -89,7 +89,7 @@ LEVEL_NOTE = ("Trusted: Coq kernel, extraction (FastZ.v directives), zarith, har
               "re-slicing of the cofactor buffers in the Euclidean step (C12 round 4 models and proves lehmer_step / the aligned leading "
               "words; it found and repaired in /repo 1be8c4c a defect of exactly that re-slicing, reachable through Reduced::inv, after "
               "this check's totality proof had shown that the cofactor order t0 > t1 does occur - the value-level model used here says "
-              "what the repaired code does), UBig + - << inside the Reducer helpers (C01), clone_from. The word-level models were NOT run "
+              "what the repaired code does), UBig + - << inside the Reducer helpers (C01); clone / clone_from at value level (the destination becomes the source: C13_clone_from). The word-level models were NOT run "
               "against the force_bits=32 build (they are proved for every w >= 8 but executed at w = 64 only). Montgomery form: not used by "
               "dashu (plain division by the normalised divisor with a precomputed reciprocal) - nothing to model; Reduced::pow takes an "
               "unsigned exponent (no negative exponents), exponent 0 and modulus 1 are covered by C13_asis_pow / C13_run_pow. Primitive "
@@ -111,9 +111,12 @@ RULE = ("cases = operation (every call form: by value / by reference / assigning
         "a + b = m + d, a - b = d, 2a = m + d for d in {-1, 0, 1}, k*m + d for multipliers of every size and both signs, powers of "
         "m-1 / 0 / 1, and m = g*q, a = g*r for common factors g of every shape (small, one word, 2^64k+1, x*2^64+1, x*2^128+1, other "
         "low words, all ones, low words zero, random multi-word) with the residue 1, 2, 3+ words long (the three extended-gcd branches) - "
-        "each through Reduced and through the Reducer trait, each operand also as a negative / larger representative of its residue. "
+        "each through Reduced and through the Reducer trait, each operand also as a negative / larger representative of its residue; "
+        "clone / clone_from histories (2.5 %): the destination previously in the same ring (another instance), in another ring of the same "
+        "representation and word count with the same / another normalisation shift (2^255-19 vs 2^256-189 ...), of another word count, "
+        "of another representation - then modulus(), residue(), == and a follow-up addition. "
         "A case is non-trivial when the oracle evaluated the Coq specification on it; distinct = distinct case texts.")
-EXPLANATION = ("Theorems (coq/props/C13.v, 99 pinned): for every word size >= 2 and every modulus m >= 1 the as-is model of "
+EXPLANATION = ("Theorems (coq/props/C13.v, 100 pinned): for every word size >= 2 and every modulus m >= 1 the as-is model of "
                "ConstDivisor::new/reduce/residue, + - * neg dbl sqr ==, pow, inv, div and of the Reducer impl returns the residue the "
                "mathematics demands (representation invariant raw = (x mod m) << shift preserved by every operation, residues in [0, m), "
                "inverse exactly for units, division = div_spec, different rings panic, a zero modulus is the DivideBy0 panic, no debug "
@@ -634,6 +637,40 @@ def gen_boundary(rng, tier):
     return "mix %s %s %s %s %s" % (rng.choice(["div", "div_ar"]), hx(m), hx(m2), hx(5), hx(a))
 
 
+def gen_clone(rng, tier):
+    """clone / clone_from histories: the destination was in the same ring (another instance), in another ring of the same
+    representation and word count (with the same and with a different normalisation shift), of another word count, or of
+    another representation (one / two / many words)"""
+    m1 = gen_modulus(rng, tier)
+    nb = m1.bit_length()
+    nw = (nb + W - 1) // W
+    k = rng.below(8)
+    if k == 0:
+        m2 = m1                                                            # same modulus, another instance
+    elif k == 1:
+        m2 = rng.bits(nb) | (1 << (nb - 1))                                # same bit length: same word count, same shift
+    elif k == 2:
+        top = rng.range(1, W)                                              # same word count, another shift
+        b2 = (nw - 1) * W + top
+        m2 = rng.bits(b2) | (1 << (b2 - 1))
+    elif k == 3:
+        b2 = nw * W                                                        # same word count, no shift
+        m2 = rng.bits(b2) | (1 << (b2 - 1))
+    elif k == 4:
+        n2 = max(1, nw + rng.choice([-2, -1, 1, 2, 5]))                    # another word count
+        m2 = rng.bits(n2 * W - rng.below(W)) | (1 << ((n2 - 1) * W))
+    elif k == 5:
+        m1, m2 = rng.choice([((1 << 255) - 19, (1 << 256) - 189), ((1 << 256) - 189, (1 << 255) - 19),
+                             ((1 << 192) - 237, (1 << 190) + 7), ((1 << 130) + 12, (1 << 191) - 19)])
+    else:
+        m2 = gen_modulus(rng, tier)                                        # anything, incl. one / two words vs many
+    m2 = max(m2, 1)
+    a = gen_operand(rng, m1, tier)
+    b = gen_operand(rng, m2, tier)
+    c = gen_operand(rng, m1, tier, other=a)
+    return "clx %s %s %s %s %s %s" % (rng.choice(["f", "f", "f", "c"]), hx(m1), hx(m2), hx(a), hx(b), hx(c))
+
+
 def gen_cases(rng, tier, n):
     out = []
     forms = ["vv", "vr", "rv", "rr", "av", "ar"]
@@ -648,6 +685,9 @@ def gen_cases(rng, tier, n):
         b = gen_operand(rng, m, tier, other=a)
         if rng.chance(1, 400):
             out.append("new0 %s" % rng.choice(["n", "w", "d", "r"]))
+            continue
+        if rng.chance(1, 40):
+            out.append(gen_clone(rng, tier))
             continue
         if rng.chance(1, 150):
             # moduli around MIN_DWORD_GUESS_LEN = 300 words: lehmer_guess_dword / highest_dword_normalized run from 300 words on
